@@ -28,6 +28,16 @@ func (b *cb) head(parent int, st StateJS, specs ...TxSpec) *cb {
 	b.c.Ops = append(b.c.Ops, OpJS{K: "head", Block: len(b.c.Blocks) - 1})
 	return b
 }
+func (b *cb) jump(parent, skip int, st StateJS, specs ...TxSpec) *cb {
+	b.c.Blocks = append(b.c.Blocks, BlockJS{Parent: parent, State: st, Txs: b.ids(specs...), Skip: skip})
+	b.c.Ops = append(b.c.Ops, OpJS{K: "head", Block: len(b.c.Blocks) - 1})
+	return b
+}
+func (b *cb) evict(side string, acct int) *cb {
+	b.c.Evictable = true
+	b.c.Ops = append(b.c.Ops, OpJS{K: "evict", Side: side, Acct: acct})
+	return b
+}
 func (b *cb) done(note string) *Case { b.c.Txs = b.u.specs; b.c.Note = note; return b.c }
 
 func tx(from int, nonce, price uint64) TxSpec {
@@ -205,6 +215,40 @@ func corpus() []*Case {
 		b.c.Ops = append(b.c.Ops, OpJS{K: "bad", Bad: "chainid"})
 		b.c.Kind = "limit" // the pool-full branch is outside the model
 		out = append(out, b.done("full pool, refused transaction of another chain id evicts"))
+	}
+	// lifetime eviction of one list (evict_pending_exact / evict_queue_exact): the followers of the
+	// first pending transaction pass through the queue and must leave it again, the account's own
+	// queue and the other account stay; then the evicted slots are filled again
+	{
+		b := newCB(wide, st(1, 0, rich, 0, rich))
+		b.add(false, tx(0, 0, 5), tx(0, 1, 5), tx(0, 2, 5), tx(0, 5, 5), tx(1, 0, 7), tx(1, 3, 7)).
+			evict("p", 0).add(false, tx(0, 1, 5)).add(false, tx(0, 0, 5)).
+			evict("q", 1).evict("q", 0).evict("p", 1).evict("p", 1).add(false, tx(1, 0, 7), tx(0, 2, 5))
+		out = append(out, b.done("lifetime eviction of pending and queue lists"))
+	}
+	// eviction of a local account's lists, and of a pending list standing at a state nonce > 0
+	// after a head event (pendingNonces must fall back to the state nonce, not to 0)
+	{
+		b := newCB(wide, st(1, 0, rich, 0, rich))
+		b.add(true, tx(0, 0, 5), tx(0, 1, 5), tx(0, 3, 5)).add(false, tx(1, 0, 7), tx(1, 1, 7), tx(1, 2, 7)).
+			head(0, st(1, 1, rich, 2, rich), tx(0, 0, 5), tx(1, 0, 7), tx(1, 1, 7)).
+			evict("p", 1).evict("p", 0).add(false, tx(1, 3, 7)).evict("q", 0).evict("q", 1).add(true, tx(0, 1, 6))
+		out = append(out, b.done("lifetime eviction after a head event, local account"))
+	}
+	// head events far away from the current head (TxPool.reset skips the re-injection when the
+	// heads are more than 64 numbers apart and not parent/child; the state must still follow):
+	// forward over 66 numbers with two nonces consumed on the way, back over 65 (the stale pending
+	// list stands in front of a gap and is demoted), forward again by exactly 64 / 65 numbers
+	for _, d := range []int{64, 65} {
+		b := newCB(wide, st(1, 0, rich, 0, rich))
+		b.add(false, tx(0, 0, 5), tx(0, 1, 5), tx(0, 2, 5), tx(1, 0, 7), tx(1, 2, 7)).
+			jump(0, 65, st(1, 2, 21000*5*2, 1, rich)).
+			add(false, tx(0, 3, 5), tx(1, 1, 7)).
+			head(0, st(1, 0, rich, 0, rich)).
+			add(false, tx(0, 0, 5), tx(0, 1, 6)).
+			jump(2, d-1, st(1, 1, rich, 3, 21000*7), tx(0, 0, 5)).
+			add(false, tx(1, 3, 7), tx(0, 2, 5))
+		out = append(out, b.done("head events more than 64 numbers away (no re-injection, state follows)"))
 	}
 	return out
 }
